@@ -71,6 +71,13 @@ theorem map_flag_exact (t : LTy) (h : ok t = true) (a b : List (Nat × Val t))
     · simp [moFlag, hb]
     · simp [moFlag, hl, hf]
 
+/-- Outside the property's domain, documented: with a `Vec` as the *receiver* backing
+(`SetUnionVec` as `Self`) the flag is `true` for an item that is already present (`extend`
+appends).  `SetUnion<Vec<_>>` has no `PartialOrd`/`IsBot` route to `Lattice` in the crate, so it is
+not a shipped lattice type; recorded here so the exclusion is explicit. -/
+theorem vecBackedSet_flag_counterexample :
+    setVecMerge [1] [1] = ([1, 1], true) ∧ (setMerge [1] [1]) = ([1], false) := by decide
+
 /-! non-vacuity: a merge that reports `true` because of one nested set item, and the same merge
 repeated reports `false` -/
 example :
